@@ -204,7 +204,9 @@ CHECKS = {
        "and its acknowledgements of the other side's messages: the invariant twice, a simulation of the two-way system by the two one-way "
        "systems with frame lemmas (a receiver's step leaves its sender role alone and vice versa): every schedule succeeds and after the "
        "drain each application has been notified of exactly what the other side published (C01_pair_two_way_exactly_once); "
-       "(1b) THE SAME ACROSS TRANSPORT LOSS - persistent sessions, one more action 'the transport "
+       "(1v5) v5.0 WITH SEVERAL EXCHANGES IN FLIGHT: the invariant adds the Receive Maximum accounts (sender's count = exchanges in "
+       "flight <= the peer's limit; receiver's outstanding set = its handled set), the quota is never exceeded, and after the drain the "
+       "vacancy is the full maximum (C01_pair_concurrent_exactly_once_v5); (1b) THE SAME ACROSS TRANSPORT LOSS - persistent sessions, one more action 'the transport "
        "is lost, both sides are told, the client reconnects without Clean Session, the server answers Session Present, the client "
        "retransmits its store': for every schedule of publications, deliveries and losses no call panics or reports an error, every "
        "resumption succeeds, the extended pair invariant holds again and the links drain in at most [measure] rounds once losses stop "
@@ -216,8 +218,8 @@ CHECKS = {
        "pair of states, both versions (C01_pair_qos1_completes, ...), all tied to step by C01_send_call_is_send_publish / "
        "C01_recv_call_is_deliver (..._v5); (4) the per-endpoint facts: fragmentation independence (C09), a transport loss leaves nothing of the "
        "cut connection behind and keeps a persistent session (C10), unmatched acknowledgements are protocol errors (C06). NOT proved "
-       "(C01_partial): losses with traffic in both directions at once, a loss in the middle of the resumption handshake or of a frame, manual responses, v5.0 with several exchanges in flight "
-       "or topic aliases. Those, and the tie to the code, are decided on pairs of REAL objects: a Client and a Server GenericConnection "
+       "(C01_partial): losses with traffic in both directions at once, a loss in the middle of the resumption handshake or of a frame, manual responses, v5.0 topic aliases, v5.0 with "
+       "losses. Those, and the tie to the code, are decided on pairs of REAL objects: a Client and a Server GenericConnection "
        "wired by two byte queues under seeded workloads from both sides, arbitrary delivery interleaving and fragmentation, and transport "
        "losses at arbitrary points (incl. mid-frame) with persistent-session resumption; the monitor requires no panic and no error event on "
        "either side, that the exchange comes to rest, QoS2 exactly once / QoS1 at least once (exactly once without loss) / QoS0 at most once "
@@ -234,8 +236,9 @@ CHECKS = {
        "the invariant 'counter = number of incomplete outbound exchanges of this connection incl. retransmitted ones' over all histories "
        "is decided by the monitor (ghost set of open exchanges from operations/events vs the implementation's counter and vacancy) and "
        "the correspondence; as a statement about ALL histories it is FALSE of the faithful model and of the code, and its refutation is "
-       "proved, and so is the clause 'returns to M when all exchanges complete' for every sequential run of two v5.0 endpoints "
-       "(C12_vacancy_returns_after_sequence) (C12_count_exact_refuted_*: three histories of a fresh object inside the application contract after which the vacancy is the "
+       "proved, and so are, BETWEEN TWO LIBRARY ENDPOINTS, 'the counter is the number of exchanges in flight, never above the peer's "
+       "Receive Maximum, no step is Receive Maximum exceeded, and the vacancy returns to M' for every schedule with several exchanges in "
+       "flight (C12_counter_is_exchanges_in_flight) and for every sequential run (C12_vacancy_returns_after_sequence) (C12_count_exact_refuted_*: three histories of a fresh object inside the application contract after which the vacancy is the "
        "full maximum while a stored, accepted PUBLISH of this connection is still awaited) - these are the known findings F-12b, F-12c, "
        "F-12d, reported as KNOWN-FINDING; any other discrepancy is a violation.",
   ref="DESIGN.md §3 C12, §4 F-12b, §10.4 F-12c F-12d",
